@@ -129,22 +129,36 @@ fn main() {
         }
         Some("zip") => {
             // qv zip <a/master.ndjson> <b/master.ndjson> <out.ndjson>: outputs of two processes
-            let read = |p: &str| -> Vec<Vec<serde_json::Value>> {
-                let mut runs: Vec<Vec<serde_json::Value>> = Vec::new();
-                for line in std::io::BufReader::new(std::fs::File::open(p).expect("master")).lines() {
-                    let v: serde_json::Value = serde_json::from_str(&line.unwrap()).unwrap();
-                    if v["ev"] == "Reset" {
-                        runs.push(Vec::new());
-                    }
-                    runs.last_mut().unwrap().push(v);
+            // streamed run by run: the recordings of a whole shard do not fit into memory at once
+            struct Runs {
+                lines: std::io::Lines<std::io::BufReader<std::fs::File>>,
+                held: Option<serde_json::Value>,
+            }
+            impl Runs {
+                fn open(p: &str) -> Self {
+                    Self { lines: std::io::BufReader::new(std::fs::File::open(p).expect("master")).lines(), held: None }
                 }
-                runs
-            };
-            let a = read(&args[2]);
-            let b = read(&args[3]);
+                fn next_run(&mut self) -> Option<Vec<serde_json::Value>> {
+                    let mut run: Vec<serde_json::Value> = Vec::new();
+                    if let Some(v) = self.held.take() {
+                        run.push(v);
+                    }
+                    for line in self.lines.by_ref() {
+                        let v: serde_json::Value = serde_json::from_str(&line.unwrap()).unwrap();
+                        if v["ev"] == "Reset" && !run.is_empty() {
+                            self.held = Some(v);
+                            return Some(run);
+                        }
+                        run.push(v);
+                    }
+                    if run.is_empty() { None } else { Some(run) }
+                }
+            }
+            let mut a = Runs::open(&args[2]);
+            let mut b = Runs::open(&args[3]);
             let mut out = BufWriter::new(std::fs::File::create(&args[4]).expect("out"));
-            for (ra, rb) in a.iter().zip(b.iter()) {
-                for l in qv_core::pair::zip(&ra[0]["run"], "fresh", ra, rb, true) {
+            while let (Some(ra), Some(rb)) = (a.next_run(), b.next_run()) {
+                for l in qv_core::pair::zip(&ra[0]["run"], "fresh", &ra, &rb, true) {
                     writeln!(out, "{}", l).unwrap();
                 }
             }
